@@ -50,7 +50,7 @@ class QResult:
         self.wall = 0.0; self.solver_s = None; self.error = None; self.functions = []
         self.failed = []; self.witness_ok = None; self.unwind_failed = []; self.rss_mb = None
         self.witness_reached = []; self.witness_missed = []
-        self.nprops = 0; self.nsuccess = 0; self.undecided = []
+        self.nprops = 0; self.nsuccess = 0; self.undecided = []; self.stats = {}
 
 
 def run(cmd, **kw):
@@ -129,7 +129,7 @@ def cbmc_cmd(q, gb, backend, extra=None):
         cmd += ["--unwindset", ",".join(q.unwindset)]
     cmd += q.extra
     cmd += BACKENDS[backend]
-    cmd += ["--json-ui"]
+    cmd += ["--json-ui", "--verbosity", "8"]
     if extra:
         cmd += extra
     return cmd
@@ -140,8 +140,8 @@ def parse_json_ui(text):
         data = json.loads(text)
     except Exception:
         # truncated output (killed) -> nothing
-        return None, None, "unparseable cbmc output"
-    results = None; err = None; runtime = None
+        return None, None, "unparseable cbmc output", {}
+    results = None; err = None; runtime = None; symex = [None]; size = [0, 0]
     for el in data:
         if isinstance(el, dict):
             if "result" in el:
@@ -149,10 +149,16 @@ def parse_json_ui(text):
             if el.get("messageType") == "ERROR":
                 err = (err or "") + el.get("messageText", "") + "\n"
             if el.get("messageType") == "STATUS-MESSAGE":
-                m = re.search(r"Runtime decision procedure: ([0-9.]+)s", el.get("messageText", ""))
+                m = re.search(r"Runtime decision procedure: ([0-9.e+-]+)s", el.get("messageText", ""))
                 if m:
                     runtime = (runtime or 0.0) + float(m.group(1))
-    return results, runtime, err
+                m = re.search(r"Runtime Symex: ([0-9.e+-]+)s", el.get("messageText", ""))
+                if m:
+                    symex[0] = (symex[0] or 0.0) + float(m.group(1))
+                m = re.search(r"^(\d+) variables, (\d+) clauses", el.get("messageText", ""))
+                if m:
+                    size[0] = max(size[0], int(m.group(1))); size[1] = max(size[1], int(m.group(2)))
+    return results, runtime, err, {"symex_s": symex[0], "sat_variables": size[0], "sat_clauses": size[1]}
 
 
 def _run_backend(q, gb, backend, bdir, box, extra=None):
@@ -182,7 +188,7 @@ def _run_backend(q, gb, backend, bdir, box, extra=None):
             return
         rc = p.returncode
         text = open(out).read()
-        results, runtime, err = parse_json_ui(text)
+        results, runtime, err, stats = parse_json_ui(text)
         rss = None
         try:
             m = re.search(r"RSSKB=(\d+)", open(out + ".rss").read()); rss = int(m.group(1)) // 1024 if m else None
@@ -193,6 +199,7 @@ def _run_backend(q, gb, backend, bdir, box, extra=None):
                 if not box.get("done"):
                     box["done"] = True
                     box["res"] = (backend, results, runtime, dt, rss)
+                    box["stats"] = stats
             # kill the others
             for op in box.get("procs", []):
                 if op is not p and op.poll() is None:
@@ -325,6 +332,7 @@ def run_query(q, workdir):
         return res
     backend, results, runtime, dt, rss = box["res"]
     res.backend = backend; res.solver_s = runtime; res.props = results; res.rss_mb = rss
+    res.stats = box.get("stats", {})
     res.nprops = len(results)
     for p in results:
         kind, label = classify_prop(p)
